@@ -79,13 +79,16 @@ pub fn main(args: &[String]) {
     for i in 0..ngen {
         let base = rng.pick(&corp);
         let lib = base.kind == "lib";
-        let t = match i % 5 {
+        let t = match i % 6 {
+            // grammar-directed sentences of the Annex A subset (the C02 generator): structured, mostly accepted
+            5 => crate::c02::generate(&mut rng, 5).text,
             0 | 1 => relayout(&base.text, &mut rng),
             2 => { let t = relayout(&base.text, &mut rng); gen::mutate(&t, &mut rng, gen::SV_ATOMS) }
             3 => { let mut t = base.text.clone(); t.push_str(rng.pick_str(&["\n)", " endmodule garbage ((", "\n\u{1}", "module"])); t }  // incomplete-mode prefixes
             _ => { let b2 = rng.pick(&corp); format!("{}\n{}", base.text, b2.text) }
         };
-        cases.push(Case { text: t, lib, incomplete: i % 5 == 3 || rng.chance(1, 3), tag: format!("gen{}", i % 5) });
+        let lib = lib && i % 6 != 5;
+        cases.push(Case { text: t, lib, incomplete: i % 6 == 3 || rng.chance(1, 3), tag: format!("gen{}", i % 6) });
     }
     let cases = std::sync::Arc::new(cases);
     let c2 = cases.clone();
